@@ -330,7 +330,7 @@ CLAIMED["C03"] = dict(
         "g'(x) phi(g(x)) over [a,b] is the base mass of [g a, g b], Coquelicot is_RInt_comp), so the flow's mass is the "
         "base's mass of the image; rational-quadratic bins map their interval ONTO the target interval with pinned end "
         "points and exp's inverse covers the positive reals. Not provable with the installed libraries and not claimed as "
-        "theorems: the multivariate change of variables, improper integrals, onto-ness of whole splines and networks. "
+        "theorems: the multivariate change of variables, improper integrals, onto-ness of arbitrary conditioner networks. "
         "Those are decided on the implementation by Gauss-Legendre quadrature (1-D and 2-D, four step sizes and two "
         "domains per case, a case decides only when they agree) over ~100 programs (every onto-R atom, random "
         "compositions, four bases, context rows, MaskedAutoregressiveFlow, SimpleRealNVP).",
@@ -507,6 +507,57 @@ for _pid, _t in EXTRA6.items():
 for _pid, _t in EXTRA7.items():
     CLAIMED[_pid]["text"] += " " + _t
 for _pid, _t in EXTRA8.items():
+    CLAIMED[_pid]["text"] += " " + _t
+EXTRA9 = {
+ "C02": "The catalogue includes a UMNN coupling on images with two transformed channels.",
+ "C03": "ADDED: C03_linear_whole_spline_change_of_variables - the same for the whole piecewise-linear spline, whose log-abs-det jumps at "
+        "every knot, for any unnormalised pdf; C03_linear_cdf_flow_over_the_unit_uniform_is_normalised - exp(log_prob) of "
+        "Flow(PiecewiseLinearCDF, uniform on [0,1]) integrates to exactly one for every parameter vector.",
+ "C04": "An eval() mixture model with dropout must stay in evaluation mode through sampling, and sample_and_log_prob must return what "
+        "log_prob says about the samples afterwards.",
+ "C07": "A coupling layer loaded from the state dict of a layer with another mask of the same split sizes must still partition the features.",
+ "C08": "Every program also runs with conditional leaves (shift and log-det move with the row's context) in both directions against "
+        "plain composition.",
+ "C09": "The four Piecewise*CDF modules (single-precision parameters) are called with double-precision inputs: exactly the identity outside "
+        "the tail bound.",
+ "C11": "Histories that switch caching off and on around a parameter move are part of the accessor search.",
+ "C12": "Batches whose neighbouring rows carry equal contexts are part of the distribution search.",
+ "C13": "Scalar-event and one-feature conditional normals are part of the side-effect census.",
+ "C15": "Conditional normals with an encoder module and a multi-dimensional event are saved and restored, alone and as a flow's base.",
+ "C17": "ADDED: C17_linear_quadratic_cubic_whole_splines_accept_their_box. The four Piecewise*CDF modules must reject double-precision "
+        "inputs 1e-9 / 1e-50 outside their box.",
+ "C18": "257 and 600 input rows with a matching context, and sample_and_log_prob / batched sampling whose rows x n passes 256.",
+ "C19": "Layers computing batch statistics are evaluated on features centred at 3-100 with spread 0.05-1 (tolerance 20 eps32 |x| / s).",
+ "C20": "The predicates are evaluated on objects that are not ints but compare equal to ints; sum_except_batch must refuse them with its "
+        "documented TypeError.",
+}
+EXTRA10 = {
+ "C01": "ADDED: C01_cubic_whole_spline_logabsdet_is_log_derivative (the whole cubic spline's forward map is differentiable at every interior "
+        "point of its box, knots included, with derivative exp(log-abs-det)) and C01_linear_whole_spline_logabsdet_is_log_derivative_off_knots "
+        "(the whole linear spline inside every bin). The catalogue includes LeakyReLU with a slope above one.",
+ "C02": "A deep copy of a used transform that received another checkpoint is called alternately with the original and compared with a "
+        "never-used instance.",
+ "C03": "ADDED: C03_quadratic_whole_spline_change_of_variables and C03_quadratic_cdf_flow_over_the_unit_uniform_is_normalised - the same two "
+        "statements for the whole piecewise-quadratic spline (both height forms), with an Example that the library defaults and five bins "
+        "meet the hypotheses for any parameters; C03_cubic_whole_spline_change_of_variables - the same for the cubic spline's forward direction; "
+        "C03_linear_ / C03_quadratic_ / C03_cubic_spline_flow_carries_the_base_mass - the unconstrained splines of the other three families "
+        "over a standard normal carry exactly the base mass of every [-A, A] beyond the tail bound, for all parameters. Flows whose linear layers keep their matrices are sampled first and integrated afterwards.",
+ "C04": "The fresh-twin comparison includes flows with random permutations, with and without context.",
+ "C05": "The kernel density evaluator is integrated for 40-500 float32 samples centred far from the origin.",
+ "C06": "12 and 20 features in float64: one pass per feature reproduces the input to 1e-12.",
+ "C07": "Layers built before and after another layer of the same mask pattern was loaded still split as their own masks say.",
+ "C08": "train() / eval() on a wrapper reaches every part, and the wrapper then equals its parts chained by hand in that mode.",
+ "C09": "Cubic splines with a (nearly) parabolic bin exercise the inverse's low-degree branch.",
+ "C10": "The histories accumulate into every returned tensor in place.",
+ "C14": "Normalisation layers frozen inside a training flow keep mode and state through the flow's sampling calls.",
+ "C17": "Sigmoid.inverse / Logit on the closed unit interval for clamps down to 1e-12.",
+ "C18": "Batches of zero rows return zero values / zero rows of draws (repaired defect 3369d93).",
+ "C19": "Householder factors with short reflection vectors agree across precisions.",
+ "C20": "Every tensor-returning utility hands out a fresh tensor.",
+}
+for _pid, _t in EXTRA10.items():
+    CLAIMED[_pid]["text"] += " " + _t
+for _pid, _t in EXTRA9.items():
     CLAIMED[_pid]["text"] += " " + _t
 for _pid, _t in EXTRA4.items():
     CLAIMED[_pid]["text"] += " " + _t
